@@ -143,6 +143,117 @@ func genScenario(r *vlib.PRNG, idx int) scenario {
 	return s
 }
 
+// genPressure generates scenarios built to have requests sitting in the Top port's incoming buffer (delivered, not
+// yet admitted) at the moment a DiscardTransactions / Restart is processed: bursts larger than what the buffer, its
+// Top port (2 x width = 2..16 messages) and the requester's outgoing buffer hold together, sent back to back until the
+// port refuses, against a lower level that is slow (buffer reaches its capacity) or back-pressures (the Bottom port's
+// outgoing buffer fills, admission stops below capacity); flushes placed a few cycles into a burst.
+func genPressure(r *vlib.PRNG, idx int) scenario {
+	c := config{
+		NumReqPerCycle: 1 + r.Intn(8),
+		NReq:           1 + r.Intn(2),
+		ReqInBuf:       pick(r, 1, 2, 4, 16),
+		ReqOutBuf:      pick(r, 1, 2, 4, 16),
+		ReqStallPct:    pick(r, 0, 0, 30),
+		ReqMaxTake:     pick(r, 0, 0, 1),
+	}
+	m := memkit.Policy{Seed: r.Uint64(), OutBuf: pick(r, 1, 2, 4, 16), BigLo: 50, BigHi: 100, Newest: r.Chance(1, 3)}
+	mode := r.Intn(3)
+	switch mode {
+	case 0: // slow lower level: the buffer fills to its (small) capacity
+		c.BufferSize = pick(r, 1, 1, 2, 2, 3, 4, 4, 6, 8)
+		m.InBuf = pick(r, 1, 2, 4, 16)
+		m.LatLo = 40 + r.Intn(200)
+		m.LatHi = m.LatLo + pick(r, 0, 0, 10, 40)
+	case 1: // lower level takes almost nothing: the Bottom port's outgoing buffer fills below capacity
+		c.BufferSize = pick(r, 16, 32, 64, 128)
+		m.InBuf = pick(r, 1, 1, 2)
+		m.MaxPending = pick(r, 1, 1, 2)
+		m.LatLo = 30 + r.Intn(100)
+		m.LatHi = m.LatLo + pick(r, 0, 5, 20)
+	default: // both: moderate capacity, stalling take side, permuted answers
+		c.BufferSize = pick(r, 2, 4, 8, 12, 16)
+		m.InBuf = pick(r, 1, 2, 4)
+		m.TakeStallPct = pick(r, 60, 80, 90)
+		m.TakePerCycle = 1
+		m.LatLo = r.Intn(30)
+		m.LatHi = m.LatLo + pick(r, 10, 40, 80)
+		m.StragglerPct = pick(r, 0, 20)
+		m.SendStallPct = pick(r, 0, 30)
+	}
+	c.Mem = m
+	s := scenario{Name: fmt.Sprintf("p%d", idx), Cfg: c}
+	type key struct {
+		pid  uint32
+		addr uint64
+	}
+	used := map[key]bool{}
+	nPID := 1 + r.Intn(3)
+	hold := min(c.BufferSize, 24) + 2*c.NumReqPerCycle + c.ReqOutBuf*c.NReq
+	nBursts := 1 + r.Intn(3)
+	cycle := int64(1)
+	for b := 0; b < nBursts; b++ {
+		gap := 0
+		if b > 0 {
+			gap = pick(r, 0, 20, 150, 400+r.Intn(400))
+		}
+		cycle += int64(gap)
+		n := hold/2 + 1 + r.Intn(hold+8)
+		spread := pick(r, 0, 0, 0, 1, 2) // 0 = back to back; else every few requests a small gap
+		at := cycle + 1 + int64(r.Intn(6+hold/max(1, c.NumReqPerCycle)))
+		s.Flushes = append(s.Flushes, memkit.CtrlStep{At: at, Gap: pick(r, 0, 1, 2, 5, 30, r.Intn(80))})
+		for i := 0; i < n; i++ {
+			o := op{Who: r.Intn(c.NReq), Write: r.Chance(2, 5), Size: pick(r, 4, 8, 64, 64, 1+r.Intn(64))}
+			if i == 0 {
+				o.Gap = gap
+			} else if spread > 0 && r.Intn(4) == 0 {
+				o.Gap = spread
+				cycle += int64(spread)
+			}
+			for {
+				line := r.Uint64() >> 28
+				off := 0
+				if o.Size < 64 {
+					off = r.Intn(64 - o.Size + 1)
+				}
+				o.Addr, o.PID = line*64+uint64(off), uint32(r.Intn(nPID))
+				if !used[key{o.PID, o.Addr}] {
+					used[key{o.PID, o.Addr}] = true
+					break
+				}
+			}
+			if o.Write {
+				o.Data = make([]byte, o.Size)
+				r.Bytes(o.Data)
+				if r.Chance(1, 3) {
+					o.Mask = make([]bool, o.Size)
+					for j := range o.Mask {
+						o.Mask[j] = r.Bool()
+					}
+				}
+			}
+			s.Ops = append(s.Ops, o)
+		}
+	}
+	// later traffic, well after the last flush: must be served normally
+	tail := 2 + r.Intn(10)
+	for i := 0; i < tail; i++ {
+		o := op{Who: r.Intn(c.NReq), Size: 8, PID: uint32(r.Intn(nPID))}
+		if i == 0 {
+			o.Gap = pick(r, 0, 30, 200, 600)
+		}
+		for {
+			o.Addr = (r.Uint64() >> 28) * 64
+			if !used[key{o.PID, o.Addr}] {
+				used[key{o.PID, o.Addr}] = true
+				break
+			}
+		}
+		s.Ops = append(s.Ops, o)
+	}
+	return s
+}
+
 // canonical scenarios do not depend on the seed.
 func canonical() []scenario {
 	rd := func(gap int, addr uint64, size int) op { return op{Gap: gap, Addr: addr, Size: size} }
@@ -203,7 +314,71 @@ func canonical() []scenario {
 			long = append(long, wr(g, 0x9000+uint64(i)*64, 64, i%4 == 1))
 		}
 	}
+	// ---- flushes that find requests waiting in the Top port's incoming buffer
+	reads := func(n int, firstGap int, addr uint64, who func(int) int) []op {
+		var out []op
+		for i := 0; i < n; i++ {
+			o := rd(0, addr+uint64(i)*64, 8)
+			if i == 0 {
+				o.Gap = firstGap
+			}
+			if who != nil {
+				o.Who = who(i)
+			}
+			out = append(out, o)
+		}
+		return out
+	}
+	// the shape of the situation "buffer at capacity, lower level stalled, more requests already handed over":
+	// capacity 4, width 2 (Top port holds 4); 6 reads served; 8 reads back to back (4 admitted, 4 wait in the Top
+	// port); discard, restart; the lower level answers the stale copies much later; 3 later reads
+	stall := config{BufferSize: 4, NumReqPerCycle: 2, NReq: 1, ReqInBuf: 16, ReqOutBuf: 16,
+		Mem: memkit.Policy{Seed: 4, InBuf: 16, OutBuf: 16, LatLo: 150, LatHi: 150}}
+	stallOps := append(append(reads(6, 0, 0x10000, nil), reads(8, 400, 0x20000, nil)...), reads(3, 60, 0x30000, nil)...)
+	// same with more requests than buffer + Top port hold: the rest waits in the requester's outgoing buffer, is
+	// delivered after the restart and has to be served
+	over := stall
+	over.ReqOutBuf = 4
+	overOps := append(reads(14, 0, 0x40000, nil), reads(3, 300, 0x50000, nil)...)
+	// admission stopped below capacity: the lower level holds one request at a time, the Bottom port's outgoing buffer is full
+	bp := config{BufferSize: 64, NumReqPerCycle: 1, NReq: 1, ReqInBuf: 4, ReqOutBuf: 2,
+		Mem: memkit.Policy{Seed: 5, InBuf: 1, OutBuf: 1, LatLo: 100, LatHi: 100, MaxPending: 1}}
+	bpOps := append(reads(16, 0, 0x60000, nil), reads(4, 500, 0x70000, nil)...)
+	// capacity 1, width 8: the Top port holds 16; reads and writes; two flushes (restart immediately / after 30 cycles)
+	wide := config{BufferSize: 1, NumReqPerCycle: 8, NReq: 1, ReqInBuf: 4, ReqOutBuf: 16,
+		Mem: memkit.Policy{Seed: 6, InBuf: 4, OutBuf: 4, LatLo: 60, LatHi: 60}}
+	var wideOps []op
+	for i := 0; i < 40; i++ {
+		g := 0
+		if i == 20 {
+			g = 150
+		}
+		if i%2 == 0 {
+			wideOps = append(wideOps, rd(g, 0x80000+uint64(i)*64, 16))
+		} else {
+			wideOps = append(wideOps, wr(g, 0x80000+uint64(i)*64, 64, i%4 == 3))
+		}
+	}
+	wideOps = append(wideOps, reads(4, 3000, 0x90000, nil)...)
+	// two requesters that keep sending through the Discard..Restart interval: capacity never reached, nothing waits
+	// at the discard, the Top port (8) fills during the interval and is emptied by the restart
+	thru := config{BufferSize: 16, NumReqPerCycle: 4, NReq: 2, ReqInBuf: 4, ReqOutBuf: 2,
+		Mem: memkit.Policy{Seed: 7, InBuf: 4, OutBuf: 4, LatLo: 30, LatHi: 34}}
+	var thruOps []op
+	for i := 0; i < 40; i++ {
+		o := rd(2, 0xa0000+uint64(i)*64, 32)
+		if i%3 == 0 {
+			o = wr(2, 0xa0000+uint64(i)*64, 32, false)
+		}
+		o.Who = i % 2
+		thruOps = append(thruOps, o)
+	}
 	return []scenario{
+		{Name: "canon-flush-with-4-queued-in-top-port-cap4-width2-stalled-lower-level", Cfg: stall, Ops: stallOps, Flushes: []memkit.CtrlStep{{At: 420, Gap: 5}}},
+		{Name: "canon-flush-with-queued-in-top-port-and-in-requester", Cfg: over, Ops: overOps, Flushes: []memkit.CtrlStep{{At: 20, Gap: 5}}},
+		{Name: "canon-flush-with-queued-in-top-port-bottom-backpressure", Cfg: bp, Ops: bpOps, Flushes: []memkit.CtrlStep{{At: 30, Gap: 2}}},
+		{Name: "canon-flush-cap1-width8-top16", Cfg: wide, Ops: wideOps, Flushes: []memkit.CtrlStep{{At: 10, Gap: 0}, {At: 170, Gap: 30}}},
+		{Name: "canon-requesters-send-through-flush-interval", Cfg: thru, Ops: thruOps, Flushes: []memkit.CtrlStep{{At: 12, Gap: 30}}},
 		{Name: "canon-burst-reversed-cap4", Cfg: base, Ops: burst},
 		{Name: "canon-capacity-1", Cfg: cap1, Ops: burst},
 		{Name: "canon-two-requesters-mixed-backpressure", Cfg: two, Ops: mixed},
@@ -347,6 +522,17 @@ func runScenario(rec vlib.Recorder, s scenario) {
 	rec.Count("dropped_at_restart", st.dropped)
 	rec.Count("served_after_restart", st.servedAfterRestart)
 	rec.Count("stale_bottom_responses_after_flush", st.stale)
+	rec.Count("flushes_with_requests_queued_in_top_port", st.flushesTopQueued)
+	rec.Count("flushes_with_requests_queued_in_top_port_at_capacity", st.flushesTopQueuedCapFull)
+	rec.Count("flushes_with_requests_queued_in_top_port_below_capacity", st.flushesTopQueued-st.flushesTopQueuedCapFull)
+	rec.Count("requests_queued_in_top_port_at_flush", st.queuedAtDiscard)
+	rec.Count("requests_delivered_between_discard_and_restart", st.arrivedInInterval)
+	rec.Count("requests_left_in_top_port_by_restart", st.leftAtRestart)
+	rec.Count("requests_left_by_restart_dropped_later", st.lazyDropped)
+	rec.Count("requests_sent_before_restart_delivered_after_served", st.sentBeforeDeliveredAfter)
+	if st.flushesTopQueued > 0 {
+		rec.Distinct("queued_at_flush_capacity_x_top_port", fmt.Sprintf("cap=%d,top=%d", s.Cfg.BufferSize, 2*s.Cfg.NumReqPerCycle))
+	}
 	rec.Count("capacity_reached", st.capReached)
 	rec.Count("ticks_with_full_top_port", out.topFull)
 	rec.Count("ticks_with_full_bottom_port", out.botFull)
@@ -379,6 +565,10 @@ func main() {
 	for i := 0; i < n; i++ {
 		scs = append(scs, genScenario(base.ForkN("s", i), i))
 	}
+	pb := c.Rand("pressure")
+	for i := 0; i < n/4; i++ {
+		scs = append(scs, genPressure(pb.ForkN("p", i), i))
+	}
 	sim.GetIDGenerator() // akita initialises it lazily without synchronisation; do it before going parallel
 	vlib.Parallel(len(scs), 0, func(i int) { runScenario(c, scs[i]) })
 	c.Finish(finishOpts(false))
@@ -388,20 +578,32 @@ func finishOpts(replay bool) vlib.FinishOpts {
 	o := vlib.FinishOpts{
 		Rule: "scenario = (capacity, per-cycle width, port-buffer sizes, 1-2 requesters, timed stream of reads / full writes / masked writes " +
 			"of 1-64 bytes with unique (PID,address), lower-level delay/reorder/back-pressure policy, flush+restart points); generated from " +
-			"VERIF_SEED plus a fixed canonical battery; non-trivial = distinct scenario in which the lower level answered a younger " +
-			"transaction while an older one (>= 2 in flight) was still unanswered",
+			"VERIF_SEED (general scenarios + a quarter as many flush-under-pressure scenarios: bursts larger than buffer + Top port + requester " +
+			"buffer, sent until the port refuses, against a slow or back-pressuring lower level, flushes a few cycles into a burst) plus a fixed " +
+			"canonical battery; non-trivial = distinct scenario in which the lower level answered a younger " +
+			"transaction while an older one (>= 2 in flight) was still unanswered. Flush rule judged: the flush protocol of the component " +
+			"(Restart empties both ports) discards every request that was delivered into the Top port's incoming buffer before the Restart " +
+			"was processed, admitted or not - in flight at the DiscardTransactions, waiting in the Top port at the DiscardTransactions, or " +
+			"delivered between DiscardTransactions and Restart; none of them may be sent to the lower level or answered after the restart. " +
+			"Requests the requester had pushed before the restart but that were delivered after it (they waited in the requester's port / " +
+			"the connection) are ordinary later traffic and must be served; they are counted, not judged as discarded",
 		Assumptions: []string{
 			"peers follow akita's port protocol; every injected request has a unique id and a unique (PID,address)",
 			"control handshake as the command processor drives it: DiscardTransactions, wait for NotifyDone, Restart, wait for NotifyDone; one control message outstanding",
 			"accepted = retrieved from the Top port while not between a DiscardTransactions and the following Restart; requests retrieved in that interval (dropped by Restart) need no response and must get none",
-			"discarded by a flush = accepted and not yet answered at the Top port when the DiscardTransactions message is retrieved",
+			"discarded by a flush = accepted and not yet answered at the Top port when the DiscardTransactions message is retrieved, or delivered into the Top port's incoming buffer (recv event) before the Restart message is retrieved and not accepted before the DiscardTransactions",
+			"the requesters are not paused around a flush (the command processor pauses the compute units first; here they keep sending, which only adds cases: what is delivered before the Restart is discarded like everything else)",
 			"single lower-level port (BottomUnit), direct connections",
 		},
 		MinNontrivial: 5000,
 		MinCounters: map[string]int64{"requests_accepted": 500000, "responses_checked": 500000, "reads": 200000, "writes": 200000,
 			"masked_writes": 50000, "bottom_responses_out_of_order": 100000, "flushes": 5000, "flushes_with_transactions_in_flight": 3000,
 			"discarded_transactions": 30000, "served_after_restart": 100000, "capacity_reached": 100000, "ticks_with_full_top_port": 5000,
-			"ticks_with_full_bottom_port": 10000},
+			"ticks_with_full_bottom_port":              10000,
+			"flushes_with_requests_queued_in_top_port": 8000, "flushes_with_requests_queued_in_top_port_at_capacity": 5000,
+			"flushes_with_requests_queued_in_top_port_below_capacity": 2000, "requests_queued_in_top_port_at_flush": 60000,
+			"requests_delivered_between_discard_and_restart": 10000, "requests_sent_before_restart_delivered_after_served": 40000,
+			"dropped_at_restart": 60000},
 	}
 	if replay {
 		o.MinNontrivial = 0
